@@ -852,7 +852,35 @@ impl Run {
     // --------------------------------------------------------------------------------------------
     // finishing: evidence, replay files, exit code
 
+    /// libFuzzer campaign summary written by the check script (thorough tier)
+    fn absorb_fuzz_summary(&mut self) {
+        let Ok(path) = std::env::var("HV_FUZZ_SUMMARY") else { return };
+        let Ok(text) = std::fs::read_to_string(&path) else { return };
+        let Ok(v) = serde_json::from_str::<Value>(&text) else { return };
+        for camp in v.as_array().cloned().unwrap_or_default() {
+            let target = camp["target"].as_str().unwrap_or("").to_string();
+            let mut st = CheckStats::new(&format!("fuzz_{target}"));
+            st.evaluations = camp["executions"].as_u64().unwrap_or(0);
+            // non-trivial for a coverage-guided campaign: inputs that reached new coverage (corpus size)
+            for i in 0..camp["corpus_units"].as_u64().unwrap_or(0) {
+                st.nontrivial.insert(mix(h64(&target), i));
+            }
+            st.note = Some(format!("libFuzzer: cov={} ft={} seconds={}", camp["cov"], camp["ft"], camp["seconds"]));
+            st.samples.push(camp.clone());
+            self.add_stats(st);
+            if let Some(art) = camp["crash_artifact"].as_str() {
+                let bytes = std::fs::read(art).unwrap_or_default();
+                let hex: String = bytes.iter().map(|b| format!("{b:02x}")).collect();
+                match crate::fuzzing::replay(&target, &bytes) {
+                    Err(m) => self.fail(&format!("fuzz_{target}"), json!({"target": target, "bytes_hex": hex, "lossy_text": String::from_utf8_lossy(&bytes).chars().take(400).collect::<String>()}), format!("libFuzzer input violates the property: {m}")),
+                    Ok(()) => self.health_problems.push(format!("libFuzzer reported a crash for {target} that does not reproduce in-process ({art}); timeout/OOM are inconclusive, not violations")),
+                }
+            }
+        }
+    }
+
     pub fn finish(mut self) -> i32 {
+        self.absorb_fuzz_summary();
         let wall = self.started.elapsed().as_secs_f64();
         let evaluations: u64 = self.stats.iter().map(|s| s.evaluations).sum();
         let distinct: usize = self.stats.iter().map(|s| s.nontrivial.len()).sum();
